@@ -38,6 +38,10 @@ SEEDS = {
  "S33-columns-merge-index-oob": ("C10 (round 3)", "ColumnsRegion::merge_regions indexes `r.inner[col]` for every non-empty source", "merging sources with different non-zero column counts whose column type consumes its sources (OwnedRegion, StringRegion): index out of bounds"),
  "S34-collapse-take-last-index": ("C11 (round 3)", "CollapseSequence::push tests `self.last_index.take()`", "runs of three or more equal items: every other equal push is stored again"),
  "S35-flatstack-clear-plus-is-empty": ("C08 (round 3; two cooperating edits)", "FlatStack::clear returns early when indices.is_empty(); IndexOptimized::is_empty looks at the stride only", "FlatStack<MirrorRegion<usize>, IndexOptimized> whose history starts with a non-zero value: clear is a no-op"),
+ "S37-decoder-tail-branch-le8": ("C06 (round 4, bit-level kernels)", "Decoder::next enters its end-of-data tail branch for `pending_bits <= 8` instead of `< 8`", "a symbol whose code is deeper than one byte starting exactly on a byte boundary of the encoded storage: panic 'decode incomplete (Further)'"),
+ "S38-decoder-end-check-before-refill": ("C06 (round 4, bit-level kernels)", "the decoder's end-of-item check (no pending bits at the root => None) runs before the refill instead of after it", "an exactly-8-bit code (or 16 bits via a nested table) filling a byte-aligned byte with more symbols following: the item is silently cut short"),
+ "S39-bytesmap-get-last-slot": ("C07 (round 4, per-item path)", "BytesMap::get bounds check `index + 1 < self.len()`: the last decode slot always reads as unassigned", "a string equal to the highest-tag dictionary entry is stored as its one-byte code and reads back as the raw tag byte"),
+ "S40-dictionary-refusal-dense-tags": ("C07 (round 4, per-item path)", "the push-time refusal check tests `tag >= self.encode.len()` (assumes densely assigned tags)", "a dictionary that skipped low tag values (seen as first bytes in the sources): a literal whose first byte is an assigned tag above the entry count is accepted and reads back as the entry"),
 }
 results = {}
 # later files / lines override earlier ones for the same (seed, check): checks were strengthened between passes
